@@ -6,7 +6,8 @@ Obs == ndJsonDeserialize(IOEnv.VERIF_TRACE)
 VARIABLES i, bad
 tv == <<i, bad, ev>>
 
-C(o) == [automtls |-> o.cfg.automtls, mux |-> o.cfg.mux, group |-> o.cfg.group, runner |-> o.cfg.runner, skip |-> o.cfg.skip]
+C(o) == [automtls |-> o.cfg.automtls, mux |-> o.cfg.mux, group |-> o.cfg.group, runner |-> o.cfg.runner, skip |-> o.cfg.skip,
+         relaunch |-> o.cfg.relaunch, presettls |-> o.cfg.presettls]
 H(o) == [v \in Vars |-> o.host[v]]
 
 Conforms(o) ==
